@@ -10,4 +10,5 @@ open Biogo.Properties.C08_aff
 #print axioms nwAffine_not_opt
 #print axioms noAdj_suffices
 #print axioms nwAffine_opt_of_side_condition
+#print axioms swAffine_opt_of_side_condition
 #print axioms design_side_condition_insufficient
